@@ -97,6 +97,38 @@ theorem scan_unset_translated (spec : MsgSpec) (bm : Bitmap) (n i : Nat) (src : 
   simp [scan, hp, hs]
 
 
+
+/-! ### the block loop of `Bitmap.Unpack` = `Bitmap.unpackLoop` -/
+
+/-- one iteration, once the encoder has decoded a block: an empty block is the source's error
+condition; the loop is left under its `break` condition (no expansion, or the first bit of the
+block clear); otherwise the next block is read -/
+theorem unpackLoop_step_translated (enc : Enc) (minLen : Nat) (auto : Bool) (fuel : Nat) (rest acc : Bytes)
+    (read : Nat) (decoded : Bytes) (r : Nat) (hd : Enc.decode enc rest minLen = .ok (decoded, r)) :
+    unpackLoop enc minLen auto (fuel + 1) rest acc read =
+      if (bitmap_Unpack_guards (!auto) decoded.length (decide ((decoded.headD 0).toNat < 128))).any id then .err
+      else if (bitmap_Unpack_breaks (!auto) decoded.length (decide ((decoded.headD 0).toNat < 128))).any id
+        then .ok (acc ++ decoded, read + r)
+      else unpackLoop enc minLen auto fuel (rest.drop r) (acc ++ decoded) (read + r) := by
+  simp only [unpackLoop, hd, bitmap_Unpack_guards, bitmap_Unpack_breaks, List.any_cons, List.any_nil, id,
+    Bool.or_false, decide_eq_true_eq]
+  cases decoded with
+  | nil => simp
+  | cons first tl =>
+    have h0 : ¬ ((tl.length : Int) + 1 = 0) := by omega
+    by_cases hb : auto = false ∨ first.toNat < 128
+    · have hb' : auto = false ∨ decide (first.toNat < 128) = true := by
+        rcases hb with h | h
+        · exact Or.inl h
+        · exact Or.inr (by simp [h])
+      simp [h0, hb, hb']
+    · have hb' : ¬ (auto = false ∨ decide (first.toNat < 128) = true) := by
+        intro h
+        rcases h with h | h
+        · exact hb (Or.inl h)
+        · exact hb (Or.inr (by simpa using h))
+      simp [h0, hb, hb']
+
 /-! ### the two loops of `Message.pack` = `MsgSpec.setBits`, `MsgSpec.packFields` -/
 
 open MsgSpec in
